@@ -25,7 +25,6 @@ from vcommon import VERIF
 
 PROPS = ["Bee2V/C13/Props.lean", "Bee2V/C13/PropsRec.lean"]
 LENS = (16, 24, 32)
-HOOK = os.path.join(VERIF, "harness", "c13_hook.c")
 
 M_STD = {
     16: [0x87, 0x285, 0xC41, 0x1821, 0x8015, 0x8301, 0x20281, 0x22081, 0x2A001,
@@ -524,7 +523,7 @@ def run(ctx):
     kinds = {}
     distinct = set()
     for cfg, W in (("asan", 64), ("w32", 32)):
-        exe = ctx.cc("harness/c13.c", cfg, extra=(HOOK,))
+        exe = ctx.cc("harness/c13.c", cfg)
         keys, pre = gen_keys(ctx, exe, W)
         ops = corpus_ops(W) + pre + gen_ops(ctx, W, keys, tier, light=(cfg == "w32" and tier == "quick"))
         lines = [o.line for o in ops]
@@ -590,6 +589,15 @@ def run(ctx):
         distinct=len(distinct), exhaustive=False)
 
 
+def c19_stream():
+    """op stream for property C19 (same function in every build configuration): the light quick stream — all ops are
+    octet-level; the word-size token only parameterises the model's bookkeeping, the harness accepts 32 and 64 on any build"""
+    def fn(ctx, exe, w):
+        keys, pre = gen_keys(ctx, exe, w)
+        return [o.line for o in corpus_ops(w) + pre + gen_ops(ctx, w, keys, "quick", light=True)]
+    return ("harness/c13.c", "drv_c13", fn, False)
+
+
 def replay(ctx, path):
     op, exp, cfg, model = None, None, "asan", None
     for line in open(path):
@@ -605,7 +613,7 @@ def replay(ctx, path):
     if op is None:
         print("replay file names a theorem, nothing to execute")
         return 0
-    exe = ctx.cc("harness/c13.c", cfg, extra=(HOOK,))
+    exe = ctx.cc("harness/c13.c", cfg)
     out, err, rc = ctx.run_lines(exe, [op])
     got = out[0] if out else "CRASH rc=%d %s" % (rc, err[-300:])
     print("impl:", got)
